@@ -58,6 +58,13 @@ var corpus = []history{
 		return tagged(rawpeer.Tattach(0, 1, ""), rawpeer.Twalk(0, 1, 2, "f"), rawpeer.Txattrwalk(0, 2, 6, "user.k"), rawpeer.Tread(0, 6, 0, 2), rawpeer.Tclunk(0, 6), rawpeer.Tgetattr(0, 2),
 			rawpeer.Txattrwalk(0, 2, 6, ""), rawpeer.Txattrcreate(0, 2, "user.n", 3, 0), rawpeer.Twrite(0, 2, 0, []byte("xyz")), rawpeer.Tclunk(0, 2))
 	}},
+	// an xattr create whose commit at Tclunk FAILS (fewer bytes written than
+	// announced; the backend refuses because the attribute exists): the clunk
+	// reports the error and still unbinds and releases the fid
+	{"xattr-create-refused-at-clunk", func() []refcodec.Msg {
+		return tagged(rawpeer.Tattach(0, 1, ""), rawpeer.Twalk(0, 1, 2, "f"), rawpeer.Txattrcreate(0, 2, "user.n", 3, 0), rawpeer.Twrite(0, 2, 0, []byte("x")), rawpeer.Tclunk(0, 2), rawpeer.Tgetattr(0, 2),
+			rawpeer.Twalk(0, 1, 3, "f"), rawpeer.Txattrcreate(0, 3, "user.k", 2, 1), rawpeer.Twrite(0, 3, 0, []byte("zz")), rawpeer.Tclunk(0, 3), rawpeer.Tgetattr(0, 3), rawpeer.Tgetattr(0, 1))
+	}},
 	{"rename-unlink-referenced", func() []refcodec.Msg {
 		return tagged(rawpeer.Tattach(0, 1, ""), rawpeer.Twalk(0, 1, 2, "f"), rawpeer.Twalk(0, 1, 3, "d", "x"), rawpeer.Twalk(0, 1, 4, "d"), rawpeer.Trenameat(0, 1, "f", 4, "g"), rawpeer.Tgetattr(0, 2),
 			rawpeer.Tunlinkat(0, 4, "g"), rawpeer.Tgetattr(0, 2), rawpeer.Trename(0, 3, 1, "y"), rawpeer.Tremove(0, 3), rawpeer.Tclunk(0, 2))
@@ -280,7 +287,7 @@ func raceScenario(p raceParams) *fw.Scenario {
 }
 
 func run(ctx *fw.Ctx, rep *fw.Report) {
-	rep.Rule = "(b) for each of 9 corpus histories: the request stream is cut after EVERY byte offset (complete frames before the cut run in lock-step, then the partial frame, then EOF), and for every request index the client sends the request and hangs up at once (in-flight request, server writes failing from then on; additionally with server writes failing at every byte offset of the reply); (d) an operation held at a gate inside the backend || a request that drops the fid (clunk, remove, re-bind) || a second operation on the fid, with and without reading the replies before the hang-up; every Mazurkiewicz trace of each scenario from the cut/hang-up on (DPOR+sleep sets; fallback preemption bound 0,1); oracle: every handle closed exactly once at the end, every call on a handle happens-before its Close, Handle returned, every thread of the execution terminated (deadlock = a goroutine that can never finish); distinct = distinct (calls, handles) outcomes per scenario"
+	rep.Rule = "(b) for each of the corpus histories (failed multi-step walks, fid replacement, create-rebind, xattr fids incl. an xattr create refused at clunk, rename/unlink of referenced entries, attach names, refused names, open+readdir, clone of an unlinked file, node creation): the request stream is cut after EVERY byte offset (complete frames before the cut run in lock-step, then the partial frame, then EOF), and for every request index the client sends the request and hangs up at once (in-flight request, server writes failing from then on; additionally with server writes failing at every byte offset of the reply); (d) an operation held at a gate inside the backend || a request that drops the fid (clunk, remove, re-bind) || a second operation on the fid, with and without reading the replies before the hang-up; every Mazurkiewicz trace of each scenario from the cut/hang-up on (DPOR+sleep sets; fallback preemption bound 0,1); oracle: every handle closed exactly once at the end, every call on a handle happens-before its Close, Handle returned, every thread of the execution terminated (deadlock = a goroutine that can never finish); distinct = distinct (calls, handles) outcomes per scenario"
 	rep.Assumptions = append(rep.Assumptions, "independence classes of DESIGN §2.2", "requests before the cut run under the default schedule", "parts (a) request histories and (c) fault sequences of DESIGN §4 C05 are decided by the C04/C08 and C15 checks' lifecycle oracles")
 	var scs []*fw.Scenario
 	cuts, hangs := 0, 0
